@@ -88,7 +88,7 @@ def _at_yield(self, ip, k, v, node):
     else:
         st.oblige('yield%d(Message):only-after-the-response' % k, hs(st), tags=('C07',))
         for item in message_guarantee(ip, v):
-            st.oblige('yield%d(Message):%s' % (k, item[0]), item[1], tags=item[2] if len(item) > 2 else ('C01', 'C04'))
+            st.oblige('yield%d(Message):%s' % (k, item[0]), item[1], tags=item[2] if len(item) > 2 else ('C01', 'C04', 'C08', 'C14'))
         if k == 1:
             st.oblige('yield1:control-frames-never-join-the-pending-message', BoolVal(True), tags=('C01',))
     st.ghost.setdefault('yield_trace', []).append((k, 'Response' if k == 0 else 'Message'))
@@ -113,7 +113,7 @@ def _check_exit(self, ip, a, old, kind, res):
         pr = BoolVal(pr) if isinstance(pr, bool) else pr
         st.oblige('exhausted:response-handed-on-iff-header-parsed', And(hs(st) == pr, hp(st) == pr), tags=('C07',))
         for n, f in pending_inv(ip, frames):
-            st.oblige('exhausted:' + n, f, tags=('C01', 'C04'))
+            st.oblige('exhausted:' + n, f, tags=('C01', 'C04', 'C08', 'C14'))
         return
     exc = res
     ok = exc.cls is not None and (issubclass(exc.cls, errors.ProtocolError) or issubclass(exc.cls, errors.CriticalProtocolError))
@@ -132,7 +132,7 @@ def _loop(self, k):
         pr = st.get(a.self, '_parsed_response')
         pr = BoolVal(pr) if isinstance(pr, bool) else pr
         return [('response-parsed', pr), ('response-handed-on', hs(st)), ('header-parsed', hp(st))] + \
-            [(n, f, ('C01', 'C04')) for n, f in pending_inv(ip, frames)]
+            [(n, f, ('C01', 'C04', 'C08', 'C14')) for n, f in pending_inv(ip, frames)]
 
     def mods(ip):
         st = ip.st
@@ -162,5 +162,5 @@ StreamFeed.at_yield = _at_yield
 StreamFeed.check_exit = _check_exit
 StreamFeed.loop = _loop
 StreamFeed.external = False
-StreamFeed.serves = ('C01', 'C02', 'C04', 'C07')
+StreamFeed.serves = ('C01', 'C02', 'C04', 'C07', 'C08', 'C14')
 StreamFeed.start_requires = lambda self, ip, a: []
